@@ -157,13 +157,19 @@ def run(report):
         except Exception as e2:
             report.fault(f"VC generation for symbols.py failed: {type(e2).__name__}: {e2}")
             c09_names.bounded_aliasing(report)
+            c09_names.clone_battery(report)
         return
     report.extend(obs)
     report.function("symplyphysics.core.symbols.id_generator.next_id", ex.source_file)
     report.function("symplyphysics.core.symbols.id_generator.last_id", ex.source_file)
     report.extra["paths"] = npaths
     from . import c09_names
-    c09_names.run(report)
+    try:
+        c09_names.run(report)
+    except Exception as e2:  # symbols.py left the modelled subset: fault, and the executed scenarios still judge the real code
+        report.fault(f"VC generation for symbols.py failed: {type(e2).__name__}: {e2}")
+        c09_names.bounded_aliasing(report)
+        c09_names.clone_battery(report)
     from ..contracts import audit
     audit.run(report)
     report.trust("CPython 3.12 (subset of DESIGN 3.A)", "z3 5.1 arrays/strings", "SymPy 1.14 structural equality of Symbol/Function/Quantity by (class, name, assumptions)")
